@@ -114,6 +114,19 @@ var lineFaults = []faultKind{
 	{"modulo-by-zero-after-chain", "{{ 1\n* 2\n* 3\n% 0 }}", true, 3},
 	{"mistyped-operand-in-middle-of-chain", "{{ 1\n+ \"a\"\n+ 2 }}", true, 1},
 	{"comparison-after-chain", "{{ 1\n+ 2\n< \"b\" }}", true, 2},
+	// the fault stands inside index brackets, call parentheses, a ternary arm or an object value, on a later line than the opening token
+	{"undefined-identifier-inside-index", "{{ [1, 2][\n nope ] }}", true, 1},
+	{"unknown-function-inside-index", "{{ {a: 1}[\n\n 5.nofn() ] }}", true, 2},
+	{"division-by-zero-inside-index", "{{ [1][\n 1 / 0 ] }}", true, 1},
+	{"undefined-identifier-inside-call-arguments", "{{ \"abc\".contains(\n nope) }}", true, 1},
+	{"undefined-identifier-second-call-argument", "{{ \"abc\".truncate(2,\n\n nope) }}", true, 2},
+	{"division-by-zero-in-ternary-arm", "{{ true ?\n 1 / 0\n : 2 }}", true, 1},
+	{"undefined-identifier-in-ternary-else-arm", "{{ false ? 1 :\n\n nope }}", true, 2},
+	{"undefined-identifier-in-object-value", "{{ {a: 1,\n b: nope}.a }}", true, 1},
+	{"unknown-function-in-array-element", "{{ [1,\n 2,\n 3.nofn()].len() }}", true, 2},
+	{"undefined-identifier-in-parentheses", "{{ (\n nope\n) + 1 }}", true, 1},
+	{"undefined-identifier-in-each-source-index", "@each(q in [[1]][\n nope])x@end", true, 1},
+	{"division-by-zero-in-if-condition", "@if(1 ==\n 1 / 0)x@end", true, 1},
 	// an object literal as directive argument, written over several lines, with a comma missing: the token that
 	// stands where the comma belongs is the unexpected one
 	{"unexpected-token-in-component-arguments", "@component(\"c\", {a: 1,\n b: 2\n c: 3})", false, 2},
